@@ -29,7 +29,8 @@ from pymbolic.mapper import IdentityMapper
 from pytools import UniqueNameGenerator
 
 from dagrt.codegen.dag_ast import (
-    ASTIdentityMapper, Block, IfThen, StatementWrapper, get_statements_in_ast)
+    ASTCollector, ASTIdentityMapper, Block, IfThen, StatementWrapper,
+    get_statements_in_ast)
 
 
 __doc__ = """
@@ -44,11 +45,35 @@ def get_stmt_id_generator(statements):
     return UniqueNameGenerator({stmt.id for stmt in statements})
 
 
-def get_var_name_generator(statements):
+class _TreeVariableFinder(ASTCollector):
+    """Finds the names used by the tree itself, i.e. in the conditions of
+    conditional nodes and in the headers of loop nodes. (Lowering moves guards
+    and loops out of the statements, which therefore no longer mention them.)
+    """
+
+    def map_constant(self, expr):
+        return set()
+
+    def map_variable(self, expr):
+        return {expr.name}
+
+    def map_ForLoop(self, expr):
+        return {expr.loop_var_name} | super().map_ForLoop(expr)
+
+    def map_StatementWrapper(self, expr):
+        return set()
+
+    def map_NullASTNode(self, expr):
+        return set()
+
+
+def get_var_name_generator(statements, phase_ast=None):
     existing_variables = set()
     for stmt in statements:
         existing_variables.update(stmt.get_written_variables())
         existing_variables.update(stmt.get_read_variables())
+    if phase_ast is not None:
+        existing_variables.update(_TreeVariableFinder()(phase_ast))
     return UniqueNameGenerator(existing_variables)
 
 
@@ -86,7 +111,7 @@ def apply_statement_rewriter(rewriter_cls, phase_ast):
     statements = list(get_statements_in_ast(phase_ast))
     rewriter = rewriter_cls(
             stmt_id_gen=get_stmt_id_generator(statements),
-            var_name_gen=get_var_name_generator(statements))
+            var_name_gen=get_var_name_generator(statements, phase_ast))
 
     return rewriter(phase_ast)
 
